@@ -168,7 +168,7 @@ def showState (d : DS) : String :=
     | some c => s!"{showPt c.origin}>{showPt c.target}"
   s!"pos={showPt b.axes} spos={showPt b.saxes} rel={b01 b.rel} srel={b01 b.srel} " ++
   s!"tool={b01 b.toolActive} coola={b01 b.coolActive} spin={showSpin b.spin} pmode={showPow b.pmode} cool={showCool b.cool} " ++
-  s!"power={showRat b.power} feed={showRat b.feed} tnum={b.toolNumber} swap={showSwap b.swap} " ++
+  s!"power={showRat b.power} feed={showRat b.feed} tnum={b.toolNumber} swap={showSwap b.swap} halt=off " ++
   s!"bed={showOQ b.bed} hot={showOQ b.hotend} ch={showOQ b.chamber} " ++
   s!"erel={b01 b.erel} fmode={b.fmode} inches={b01 b.inches} plane={b.plane} ccw={b01 b.dirCcw} res={showRat b.res} " ++
   s!"ms={b01 b.msTime} kelvin={b01 b.kelvin} params={showParams b.params} nhook={d.nhook} lasthook={lastHook}"
